@@ -59,7 +59,9 @@ CLAIMED = {
           "documented desugaring (npm caret/tilde/x-range/hyphen, gem ~>, PEP 440 clauses, Maven/NuGet brackets, Conan tilde/caret, Debian/RPM "
           "relations, nginx dash and plus forms, openssl lists), plus soundness against the in-repo matcher for gem and maven. Membership "
           "equality with the ecosystems' own matchers is additionally checked on the real code with release probes around every bound, and for deb / rpm relations "
-          "over ANY version of the scheme against the order of the scheme's Lean model (dpkg's / rpmvercmp's order, tied to the code by C03).",
+          "over ANY version of the scheme against the order of the scheme's Lean model (dpkg's / rpmvercmp's order, tied to the code by C03). FUNCTION TIE: the "
+          "relation converters of DebianVersionRange and RpmVersionRange (split, build_constraint_from_string, from_native, from_natives) are translated from the "
+          "Python source on every run and proved equal, on ASCII text, to the model functions (deb_from_natives_eq, rpm_from_natives_eq, ...).",
           "PARTIAL: the text-to-AST step of the third-party parsers (semantic_version.NpmSpec, packaging SpecifierSet) is modelled and tied by "
           "correspondence only; the fidelity of third-party matchers to the ecosystems is trusted. Known: maven soft requirement '1.0' gives vers:maven/None (K07).",
           "§7 C06", "Lean 4 proof on the AST fragment + correspondence + native-matcher oracle on the real code"),
